@@ -120,6 +120,14 @@ def run_model_job(pid, job, tier, seed):
         p = dict(p)
         p["bounds"] = "%d roots (%s), depth %d (levels), is_legal sweep level %d, clock setters %s" % (len(roots), mc.get("roots", "curated"), cfgj["depth"], cfgj["sweep"], "on" if cfgj["setters"] else "off")
         job["params"][tier] = p
+    if "starts_mc" in p:
+        t = [l.strip() for l in open(os.path.join(vlib.VERIF, "roots", "chess960_start_positions.sfens")) if l.strip()]
+        path = os.path.join(wd, "mccfg.json")
+        json.dump({"table": [[ord(c) for c in r] for r in t], "pairs": p["starts_mc"]["pairs"]}, open(path, "w"))
+        env["MCCFG"] = path
+        p = dict(p)
+        p["bounds"] = "all 960 Scharnagl numbers (legal array, pairwise distinct, equal to the published table), %d double-960 pairs per number sound and accepted by the validator model" % p["starts_mc"]["pairs"]
+        job["params"][tier] = p
     if "geom_mc" in p:
         import random
         rnd = random.Random(seed)
